@@ -81,10 +81,10 @@ type WorkerOut struct {
 	InconclWhy   map[string]int    `json:"inconclusive_reasons"`
 	Infra        []string          `json:"infra"`
 	Failures     []FailureRec      `json:"failures"`
-	Hashes       []uint64          `json:"hashes"`       // fingerprint per run, index-aligned with RunIdx
-	RunIdx       []uint64          `json:"run_idx"`      // run indices executed
-	Nontrivial   []bool            `json:"nontrivial"`   // per run: contested decision or fault occurred
-	States       []uint64          `json:"states"`       // distinct oracle-visible state hashes
+	Hashes       []uint64          `json:"hashes"`     // fingerprint per run, index-aligned with RunIdx
+	RunIdx       []uint64          `json:"run_idx"`    // run indices executed
+	Nontrivial   []bool            `json:"nontrivial"` // per run: contested decision or fault occurred
+	States       []uint64          `json:"states"`     // distinct oracle-visible state hashes
 	Steps        int64             `json:"steps"`
 	Contested    int64             `json:"contested"`
 	SimTimeS     float64           `json:"sim_time_s"`
@@ -417,4 +417,9 @@ func replay(t *testing.T, spec Spec, tier, path string) {
 		return
 	}
 	fmt.Printf("REPLAY-PASS hash=%x inconclusive=%q\n", res.Hash, res.Inconcl)
+	if os.Getenv("KSIM_VERBOSE") != "" {
+		for _, l := range res.Trace {
+			fmt.Println("  ", l)
+		}
+	}
 }
